@@ -1,7 +1,7 @@
 from vdriver import Group
 META = {'level': 'other'}
 def groups(tier):
-    T = dict(unit='throttle', harness='C21/thr_steps.c', replace=['peer_id_to_string'], unwind=9, kind='bounded', timeout=900, backend=['sat', 'cadical'],
+    T = dict(unit='throttle', harness='C21/thr_steps.c', replace=['peer_id_to_string'], unwind=9, kind='bounded', timeout=900, backend=['cvc5', 'sat', 'cadical'],
              defines=['CXX_VEC_CAP=8', 'CAP=' + ('4' if tier == 'quick' else '6')], bound='history capacity: burst limit <= ' + ('4' if tier == 'quick' else '6') + ' (one step from every state satisfying the invariant; unbounded in the number of steps and in time)')
     return [Group('throttle.register', entry='h_register',
                   clause='register_incoming_announce preserves the history invariant; accepted announces are >= min interval apart and <= burst limit per window; refusals only for those reasons', **T),
